@@ -735,7 +735,7 @@ fn run_case(c: &Case) -> CaseOut {
         }
         "records" => {
             let mut rng = Rng::new(c.seed, 0xC09, 1);
-            let ho = HeaderOpts { fileformat: c.fileformat, max_samples: if c.seed % 7 == 0 { 40 } else { 6 }, idx: c.idx, model: c.model, extras: true, min_contig_len: None };
+            let ho = HeaderOpts { fileformat: c.fileformat, max_samples: if c.seed % 7 == 0 { 40 } else { 6 }, idx: c.idx, model: c.model, extras: true, min_contig_len: None, v45_numbers: true };
             let hd = gen_header(&mut rng, &ho);
             let ro = RecOpts { model: c.model, nan: true, invalid_ints: false, rare: 14 };
             let recs: Vec<RecDesc> = (0..c.n).map(|_| gen_record(&mut rng, &hd, &ro)).collect();
@@ -748,7 +748,7 @@ fn run_case(c: &Case) -> CaseOut {
             let mut rng = Rng::new(c.seed, 0xC09, 2);
             for i in 0..c.n {
                 let idx = if i % 8 == 7 { [IdxMode::Natural, IdxMode::Permuted, IdxMode::Sparse][(i / 8) % 3] } else { IdxMode::None };
-                let ho = HeaderOpts { fileformat: None, max_samples: 12, idx, model: if i % 5 == 0 { Model::Common } else { Model::Full }, extras: true, min_contig_len: None };
+                let ho = HeaderOpts { fileformat: None, max_samples: 12, idx, model: if i % 5 == 0 { Model::Common } else { Model::Full }, extras: true, min_contig_len: None, v45_numbers: true };
                 let hd = gen_header(&mut rng, &ho);
                 out.evaluations += 1;
                 check_header(&hd, &mut out);
